@@ -169,7 +169,7 @@ def run(ctx: Check, tree: Tree) -> None:
     te = TermEval(tree)
     for cls_name in ("NonRelativisticKMatrix", "RelativisticKMatrix"):
         check_k_symmetric_real(ctx, tree, te, cls_name)
-    check_t_matrix(ctx, tree, "NonRelativisticKMatrix", rel=False)
-    check_t_matrix(ctx, tree, "RelativisticKMatrix", rel=True)
-    check_rho_pairing(ctx, tree)
-    check_parametrize_wiring(ctx, tree)
+    ctx.section(check_t_matrix, ctx, tree, "NonRelativisticKMatrix", rel=False)
+    ctx.section(check_t_matrix, ctx, tree, "RelativisticKMatrix", rel=True)
+    ctx.section(check_rho_pairing, ctx, tree)
+    ctx.section(check_parametrize_wiring, ctx, tree)
